@@ -138,8 +138,8 @@ Print Assumptions slice_status_ok.
 (* testing/grpc-impls-config.yaml: HTTP/2, gRPC, proto, no TLS *)
 Definition grpc_cfg : C06_Model.config :=
   C06_Model.mkConfig (C06_Model.mkFeatures [2] [2] [1] [] [] None (Some false) None None None None None) [] [].
-Definition t1 := mkT (bs "unary/success") 1 [] [] false false.
-Definition t2 := mkT (bs "unary/no-request") 1 [] [] true false.          (* raw request *)
+Definition t1 := mkT (bs "unary/success") 1 [] [] false false no_extras.
+Definition t2 := mkT (bs "unary/no-request") 1 [] [] true false no_extras.          (* raw request *)
 Definition s1 := mkSuite (bs "Basic") 0 [2] [2] [1] [] 0 false false false false [t1].
 Definition s2 := mkSuite (bs "Raw") 2 [2] [2] [1] [] 0 false false false false [t2].
 
@@ -180,7 +180,7 @@ Proof. vm_compute. reflexivity. Qed.
 Example ex_ambiguous :
   predicted_run grpc_cfg
     [mkSuite (bs "S") 0 [2] [2] [1] [1] 0 false false false false
-       [mkT (bs "t") 1 [] [] false false; mkT (bs "(grpc client impl)/t") 1 [] [] false false]] true false []
+       [mkT (bs "t") 1 [] [] false false no_extras; mkT (bs "(grpc client impl)/t") 1 [] [] false false no_extras]] true false []
   = Bad EAmbiguousNames.
 Proof. vm_compute. reflexivity. Qed.
 
